@@ -251,6 +251,33 @@ func runC19(c *Ctx) {
 		c.ob("C19-R1", fnKey(pd)+"#building-the-new-version-cannot-panic-the-process", pd.Pos(), recovers, "prepareDevServer runs on the reload timer goroutine and registers program-derived patterns on an http.ServeMux (which panics on duplicates / malformed patterns) without a deferred recover of its own: a file that parses but declares two `@ ws /chat` blocks terminates glyph dev instead of leaving the previous version running")
 	}
 
+	// the watcher's exclusion test looks at names below the watched root only, component by component
+	if se := c.fn(hotPkg, "FileWatcher.shouldExclude"); se != nil {
+		substr := false
+		eachCall(se, func(call ssa.CallInstruction) {
+			if n := callName(call); n == "strings.Contains" || n == "strings.HasPrefix" || n == "strings.Index" {
+				if call.Common().Args[0] == ssa.Value(se.Params[1]) {
+					substr = true
+				}
+			}
+		})
+		c.ob("C19-R4", fnKey(se)+"#exclude-compared-with-path-components", se.Pos(), !substr, "an exclude word is searched as a substring of the whole path: `vendors.glyph`, or any project below a directory whose name merely contains an exclude word (`my.github.io`, `vendor-portal`), is never scanned, so its edits never take effect")
+		for _, fn := range c.srcFuncs(hotPkg) {
+			eachCall(fn, func(call ssa.CallInstruction) {
+				if staticFn(call) != se || fn == se {
+					return
+				}
+				arg := call.Common().Args[1]
+				_, raw := arg.(*ssa.Parameter)
+				if fv, ok := arg.(*ssa.FreeVar); ok {
+					_ = fv
+					raw = true
+				}
+				c.ob("C19-R4", fnKey(fn)+"#exclude-applied-below-the-watched-root", call.Pos(), !raw, "the exclusion test is applied to the path as walked (including the watched root's own directories): a root below a directory named like an exclude word is skipped entirely")
+			})
+		}
+	}
+
 	c.rule("C19-R2", "MPT: in ReloadManager.handleChanges, from the err!=nil edge of CompileFile neither server.Reload nor server.SetState is reachable and every path to return passes notifyReload with Success:false; Reload's argument is CompileFile's result; SetState is reachable only from Reload's err==nil edge; compile and install happen in one critical section of rm.mu (no Unlock between CompileFile and Reload)")
 	if hc := c.mustFn("C19-R2", hotPkg, "ReloadManager.handleChanges"); hc != nil {
 		var compile, reload *ssa.Call
